@@ -753,6 +753,12 @@ def fuzz_inputs(rng):
     if rng.random() < 0.15:
         xpt[:, int(rng.integers(npt))] = 0.0
         tags.append("xpt0")
+    if rng.random() < 0.2:
+        # single coordinates of some directions exactly zero (a direction
+        # lying in a face of a bound that is active at the origin)
+        mask = rng.random(xpt.shape) < 0.3
+        xpt[mask] = 0.0
+        tags.append("xpt_zero_entries")
     return dict(n=n, g=g, h=h, xl=xl, xu=xu, delta=delta, aub=aub, bub=bub,
                 aeq=aeq, bubn=bubn, beq=beq, const=const, xpt=xpt,
                 tags=sorted(set(tags)))
